@@ -549,6 +549,91 @@ def c16_j(ctx: Ctx):
     return swapped_arguments(ctx, "C16-j", ['signac.import_export']) + pure_logging(ctx, "C16-j", ['signac.import_export'])
 
 
+@rule("C16-m")
+def c16_m(ctx: Ctx):
+    """The directory crawler and the schema pattern look at the same spelling of the origin: the paths that os.walk reports start with the walk root as given, and the
+    pattern is anchored at the origin - if only one side resolves symbolic links (realpath) nothing matches for an origin reached through a link and the import
+    silently imports nothing."""
+    R = "C16-m"
+    cr = ctx.fn(IE + ":_crawl_directory_data_space")
+    an = ctx.fn(IE + ":_analyze_directory_for_import")
+    k = IE + "|crawl-root-and-schema-anchor-agree"
+    walks = [c for c in body_nodes(cr) if isinstance(c, ast.Call) and common.ext_name(ctx, cr, c) == "os.walk" and c.args]
+    if not walks:
+        return [ctx.inc(R, cr, cr.node, "no os.walk in the crawler", construct=k)]
+
+    def norms(fi, e, at):
+        v = common.inline_at(ctx, fi, e, at)
+        return {(common.ext_name(ctx, fi, c) or "").split(".")[-1] for c in ast.walk(v) if isinstance(c, ast.Call)} & {"realpath", "abspath", "normpath", "resolve"}
+    wn = norms(cr, walks[0].args[0], walks[0])
+    # reaching definitions of the walk root when it is a re-bound parameter
+    if isinstance(walks[0].args[0], ast.Name):
+        for d in common.reaching_defs(ctx, cr, walks[0].args[0].id, walks[0]):
+            if isinstance(d, ast.AST):
+                wn |= {(common.ext_name(ctx, cr, c) or "").split(".")[-1] for c in ast.walk(d) if isinstance(c, ast.Call)} & {"realpath", "abspath", "normpath", "resolve"}
+    sdefs = [n for n in body_nodes(an) if isinstance(n, ast.Assign) and any(isinstance(t, ast.Name) and t.id == "schema" for t in n.targets)]
+    sn = set()
+    for n in sdefs:
+        sn |= {(common.ext_name(ctx, an, c) or "").split(".")[-1] for c in ast.walk(n.value) if isinstance(c, ast.Call)} & {"realpath", "abspath", "normpath", "resolve"}
+    if ("realpath" in wn) != ("realpath" in sn) or ("resolve" in wn) != ("resolve" in sn):
+        return [ctx.viol(R, cr, walks[0], f"the crawler walks the origin after {sorted(wn) or 'no normalisation'} while the schema pattern is anchored after {sorted(sn) or 'no normalisation'}: "
+                         "for an origin that contains a symbolic link the reported directories never match the pattern and import_from returns nothing without raising", construct=k)]
+    if ("abspath" in wn) != ("abspath" in sn):
+        return [ctx.viol(R, cr, walks[0], f"the crawler walks the origin after {sorted(wn) or 'no normalisation'} while the schema pattern is anchored after {sorted(sn) or 'no normalisation'}: "
+                         "for a relative origin the reported directories never match the pattern", construct=k)]
+    return [ctx.ok(R, cr, walks[0], "the crawler's walk root and the schema anchor are the origin in the same spelling", construct=k)]
+
+
+@rule("C16-l")
+def c16_l(ctx: Ctx):
+    """Writer and reader of zip archives agree on what a member is: the importer (_CopyFromZipFileExecutor) writes every member as a regular file
+    (`open(..., 'wb')`), so the exporter adds file members only - a directory member comes back as an empty *file* of that name."""
+    R = "C16-l"
+    out = []
+    f = ctx.prog.funcs.get(IE + ":export_to_zipfile.<locals>.copytree_to_zip")
+    k = IE + ":export_to_zipfile|file-members-only"
+    if f is None:
+        return [ctx.inc(R, None, None, "copytree_to_zip not found", construct=k)]
+    walks = [lp for lp in body_nodes(f) if isinstance(lp, ast.For) and isinstance(lp.iter, ast.Call) and common.ext_name(ctx, f, lp.iter) == "os.walk"
+             and isinstance(lp.target, ast.Tuple) and len(lp.target.elts) == 3]
+    writes = [c for c in body_nodes(f) if isinstance(c, ast.Call) and isinstance(c.func, ast.Attribute) and c.func.attr == "write" and "zip" in canon(c.func.value).lower()]
+    if not writes:
+        return [ctx.inc(R, f, f.node, "no zipfile.write in copytree_to_zip", construct=k)]
+    # executor side: members are written with open(..., 'wb')
+    ex = ctx.prog.funcs.get(IE + ":_CopyFromZipFileExecutor.__call__")
+    reader_files_only = ex is not None and any(e.kind == "open-write" for e in ctx.effects.direct(ex)) and not any(
+        isinstance(c, ast.Call) and (common.ext_name(ctx, ex, c) in ("os.makedirs", "os.mkdir") and "isdir" in " ".join(t for (t, _p) in common.facts_at(ctx, ex, c, "n"))) for c in body_nodes(ex))
+    for w in writes:
+        src = kwarg(w, "filename") or (w.args[0] if w.args else None)
+        if src is None:
+            out.append(ctx.inc(R, f, w, "zipfile.write without a file name", construct=k))
+            continue
+        file_vars = set()
+        dir_vars = set()
+        pmf = ctx.parents(f)
+        cur = pmf.get(id(w))
+        while cur is not None:
+            if isinstance(cur, ast.For):
+                if cur in walks:
+                    dir_vars |= set(common.target_names(cur.target.elts[0])) | set(common.target_names(cur.target.elts[1]))
+                else:
+                    for wl in walks:
+                        if isinstance(cur.iter, ast.Name) and cur.iter.id in common.target_names(wl.target.elts[2]):
+                            file_vars |= set(common.target_names(cur.target))
+                        if isinstance(cur.iter, ast.Name) and cur.iter.id in common.target_names(wl.target.elts[1]):
+                            dir_vars |= set(common.target_names(cur.target))
+            cur = pmf.get(id(cur))
+        used = names_in(common.inline_at(ctx, f, src, w))
+        if used & file_vars:
+            out.append(ctx.ok(R, f, w, "archive members are the files found by the walk", construct=k))
+        elif used & dir_vars and reader_files_only:
+            out.append(ctx.viol(R, f, w, f"a directory ({canon(src)[:40]}) is written into the zip archive as a member of its own, but the importer writes every member with open(..., 'wb'): "
+                                "an (empty) sub-directory of a job comes back as a 0-byte regular file of that name", construct=k))
+        else:
+            out.append(ctx.inc(R, f, w, f"origin of the archive member {canon(src)[:40]} not recognised", construct=k))
+    return out
+
+
 @rule("C16-k")
 def c16_k(ctx: Ctx):
     """Every file of a job directory is exported / imported, hidden ones included: no glob-pattern enumeration."""
@@ -556,4 +641,4 @@ def c16_k(ctx: Ctx):
     return no_glob_enumeration(ctx, "C16-k", ("signac.import_export",), "the archive lacks them and the imported jobs have incomplete file trees")
 
 
-RULES = [c16_a, c16_b, c16_c, c16_d, c16_e, c16_f, c16_g, c16_h, c16_i, c16_j, c16_k]
+RULES = [c16_a, c16_b, c16_c, c16_d, c16_e, c16_f, c16_g, c16_h, c16_i, c16_j, c16_k, c16_l, c16_m]
